@@ -248,9 +248,9 @@ def _enumerate(ctx: Ctx, item):
 
 
 def run(ctx: Ctx):
-    n = 25 if ctx.quick else 250
+    n = 25 if ctx.quick else 2500
     pmap(ctx, _work, [(k, n) for k in aio.CLIENT_KINDS for _ in range(4)])
-    ks = range(0, 12) if ctx.quick else range(0, 80)
+    ks = range(0, 12) if ctx.quick else range(0, 160)
     jobs = []
     for kind in aio.CLIENT_KINDS:
         for f in FAULTS:
